@@ -114,7 +114,11 @@ class NDJsonProtocolReader:
         if (
             header_json.get("version")  # pyright: ignore [reportUnknownMemberType]
             != CURRENT_NDJSON_FORMAT_VERSION
+        ) or isinstance(
+            header_json.get("version"),  # pyright: ignore [reportUnknownMemberType]
+            bool,
         ):
+            # True == 1 in Python, but a boolean is not a version number
             raise ValueError("Unsupported yardl version.")
 
         if header_json.get(  # pyright: ignore [reportUnknownMemberType]
